@@ -91,8 +91,7 @@ def declare(reg, eng):
     # ---- externals (assumed)
     reg.contract("Path.open", params=["self", "mode"], types={"self": "Path", "mode": "str"}, fresh="FileObj", returns="FileObj",
                  modifies=["fs(self)"],
-                 requires=["not issymlink(self)"],
-                 ensures=["result.path == self", "implies(mode == 'wt', isregular(self) and fs_text(self) == '')",
+                 ensures=["result.path == self", "implies(mode == 'wt' and not old(issymlink(self)), isregular(self) and fs_text(self) == '')",
                           "implies(mode != 'wt', isfile(self) == old(isfile(self)) and fs_text(self) == old(fs_text(self)))"])
     reg.contract("FileObj.__enter__", params=["self"], types={"self": "FileObj"}, returns="FileObj", modifies=[], ensures=["result is self"])
     reg.contract("FileObj.__exit__", params=["self"], types={"self": "FileObj"}, modifies=[])
